@@ -16,6 +16,7 @@ import (
 	"net/http"
 	"os"
 	"path/filepath"
+	"strings"
 	"sync"
 	"time"
 
@@ -168,6 +169,68 @@ func main() {
 			}
 		}
 	}
+	// a target written as a fully qualified name (trailing dot): still a tunnel with a leaf of the configured CA
+	for _, h := range []string{"files.example.test.", "mirror.example.test."} {
+		c, err := connect(env, h+":443")
+		total++
+		dist["trailing-dot-target"]++
+		if err != nil {
+			failures = append(failures, failure{"trailing-dot-target", h, "", "no tunnel: " + err.Error()})
+			continue
+		}
+		tc := tls.Client(c, &tls.Config{ServerName: strings.TrimSuffix(h, "."), InsecureSkipVerify: true})
+		err = tc.Handshake()
+		certs := tc.ConnectionState().PeerCertificates
+		c.Close()
+		if err != nil || len(certs) == 0 {
+			failures = append(failures, failure{"trailing-dot-target", h, "", fmt.Sprintf("no certificate presented in the tunnel: %v", err)})
+			continue
+		}
+		inter := x509.NewCertPool()
+		for _, ic := range certs[1:] {
+			inter.AddCert(ic)
+		}
+		if _, err := certs[0].Verify(x509.VerifyOptions{Roots: env.CAPool, Intermediates: inter}); err != nil {
+			failures = append(failures, failure{"trailing-dot-target", h, "", "the certificate presented in the tunnel does not chain to the configured CA: " + err.Error()})
+		}
+	}
+	// replaced once expired — as PRESENTED: the leaf a client is shown after the host's cached leaf has expired is a new one
+	{
+		shown := func(host string) *x509.Certificate {
+			c, err := connect(env, host+":443")
+			if err != nil {
+				return nil
+			}
+			defer c.Close()
+			tc := tls.Client(c, &tls.Config{ServerName: host, InsecureSkipVerify: true})
+			if tc.Handshake() != nil || len(tc.ConnectionState().PeerCertificates) == 0 {
+				return nil
+			}
+			return tc.ConnectionState().PeerCertificates[0]
+		}
+		for _, h := range []string{"renewed.example.org", "192.0.2.9"} {
+			l1 := shown(h)
+			l1b := shown(h)
+			moved := env.CA.VerifShiftExpiry("", 11*24*time.Hour) // every cached leaf is now past its validity period
+			l2 := shown(h)
+			total++
+			dist["replaced-after-expiry"]++
+			switch {
+			case l1 == nil || l1b == nil || l2 == nil:
+				failures = append(failures, failure{"replaced-after-expiry", h, "", "a tunnel could not be set up"})
+			case moved == 0:
+				failures = append(failures, failure{"replaced-after-expiry", h, "", "the CA holds no cached leaf after two tunnels to the host"})
+			case l1.SerialNumber.Cmp(l1b.SerialNumber) != 0:
+				failures = append(failures, failure{"replaced-after-expiry", h, "", "two tunnels inside the validity period were shown different leaves (the host's leaf is not reused)"})
+			case l2.SerialNumber.Cmp(l1.SerialNumber) == 0:
+				failures = append(failures, failure{"replaced-after-expiry", h, "", "after the host's cached leaf expired the next tunnel was still shown that leaf (serial " + l1.SerialNumber.String() + ")"})
+			default:
+				if _, err := l2.Verify(x509.VerifyOptions{Roots: env.CAPool}); err != nil {
+					failures = append(failures, failure{"replaced-after-expiry", h, "", "the replacement does not verify: " + err.Error()})
+				}
+			}
+		}
+	}
 	// bursts of concurrent tunnels
 	for round := 0; round < rounds/3+1; round++ {
 		var wg sync.WaitGroup
@@ -222,7 +285,7 @@ func main() {
 	}
 	out := map[string]any{
 		"harness": "tunnelcert", "seed": *flagSeed, "tier": *flagTier, "total": total, "distinct": total, "distinct_nontrivial": total,
-		"rule":         "real proxy, CONNECT tunnels: forced schedule CONNECT A / 200 / CONNECT B / 200 / handshake in either order (different hosts, and the same host twice) + a ClientHello whose server_name differs from the CONNECT target (alias, name for an IP target, other letter case, none) + two leaves issued 3 s apart expire about 3 s apart + bursts of 12 concurrent tunnels to 5 hosts + a proxy whose ca_cert is a chain file (signing CA followed by its root); every handshake is verified by crypto/tls against the configured CA with the tunnel's own host as server name (chain, name, validity now)",
+		"rule":         "real proxy, CONNECT tunnels: forced schedule CONNECT A / 200 / CONNECT B / 200 / handshake in either order (different hosts, and the same host twice) + a ClientHello whose server_name differs from the CONNECT target (alias, name for an IP target, other letter case, none) + two leaves issued 3 s apart expire about 3 s apart + targets with a trailing dot + the leaf SHOWN after the host's cached leaf expired is a new one (and the same one inside the validity period) + bursts of 12 concurrent tunnels to 5 hosts + a proxy whose ca_cert is a chain file (signing CA followed by its root); every handshake is verified by crypto/tls against the configured CA with the tunnel's own host as server name (chain, name, validity now)",
 		"distribution": map[string]any{"scenario": dist},
 		"samples":      []any{map[string]any{"scenario": "overlapped-setup", "first": "alpha0.example.org", "second": "beta0.example.net"}},
 		"files":        []string{}, "readable": []any{},
